@@ -85,7 +85,7 @@ func sameAssignment(a, b plainTable) string {
 
 func runC18(w *mon.W) {
 	idx := 0
-	nPairs := w.Pick(100, 1000)
+	nPairs := w.Pick(100, 3000)
 	for _, tid := range tableIDs {
 		for k := 0; k < nPairs; k++ {
 			id := fmt.Sprintf("pair-t%d-%d", tid, k)
